@@ -392,6 +392,15 @@ func (r *chainRun) doStep(st *CStep) *Violation {
 			break
 		}
 		mb := r.cm.Order[1+abs(st.A)%(len(r.cm.Order)-1)]
+		if st.Flag {
+			// (motifs) the next block of a foreign chain: the newest valid block this node has not stored
+			// yet but whose parent it has
+			for _, c := range r.cm.Order[1:] {
+				if c.Valid && !v.storedSet[string(c.ID)] && v.storedSet[string(c.Pre)] {
+					mb = c
+				}
+			}
+		}
 		failed, failKind = r.deliver(n, v, mb, st.Via%4)
 	case "walk":
 		target := v.stored[abs(st.A)%len(v.stored)]
